@@ -218,4 +218,30 @@ def nestedWrites : List Node → List String
 /-- every name a fold site reads is only ever written by top-level statements of the script -/
 def FoldSafe (prog : List Node) : Bool := (readsList prog).all fun x => !(nestedWrites prog).contains x
 
+/-! ### function bodies -/
+
+/-- `def f(params): body` is parsed in a copy of the environment in which every parameter is the unknown marker
+    (`child_ctx["vars"][arg] = _ExprStr(arg)`), whatever a module-level name of the same spelling is bound to -/
+def enterFunction (p : PState) (params : List String) : PState :=
+  params.foldl (fun q x => q.bindStr x .unknown) p
+
+def foldFunction (p : PState) (params : List String) (body : List Node) : List Node :=
+  (foldList (enterFunction p params) body).2
+
+mutual
+/-- number of run-time reads of `x` (fold sites left as `.obs x`) -/
+def countObsNode (x : String) : Node → Nat
+  | .obs y => if y = x then 1 else 0
+  | .branches bs => countObsBranches x bs
+  | .loop body => countObsList x body
+  | .mainLoop body => countObsList x body
+  | _ => 0
+def countObsList (x : String) : List Node → Nat
+  | [] => 0
+  | n :: rest => countObsNode x n + countObsList x rest
+def countObsBranches (x : String) : List (List Node) → Nat
+  | [] => 0
+  | b :: rest => countObsList x b + countObsBranches x rest
+end
+
 end Reduino.Lang.CE
